@@ -11,7 +11,9 @@
 //! independent byte-level GPOS reader (`gpos_raw`) and compared with the input rules.
 
 mod gpos_raw;
+mod gsub_path;
 mod public_path;
+mod tables_path;
 
 use rayon::prelude::*;
 use serde_json::{json, Value};
@@ -32,7 +34,9 @@ pub struct G {
     pub n: usize,
     /// nominal sizes; the real size is max(nominal, bytes needed by the node's own links)
     pub sizes: Vec<u32>,
-    /// (from, to, width in bytes, adjustment); a node's links are laid out back to back from byte 0
+    /// (from, to, width in bytes, adjustment code); the code is the adjustment value itself (0, 2, 4;
+    /// clamped to the parent's size) or 255 = "the parent's whole size" (offset base = end of the
+    /// parent, as `name`-style storage areas use); a node's links are laid out back to back from byte 0
     /// in the order they appear here
     pub edges: Vec<(u8, u8, u8, u8)>,
     /// 0: object ids allocated in index order (root lowest); 1: non-root nodes get ids in reverse
@@ -49,6 +53,15 @@ impl G {
             .map(|e| e.2 as u32)
             .sum();
         self.sizes[i].max(need)
+    }
+    /// the adjustment value of an edge (never larger than the parent's size)
+    pub fn adj_of(&self, e: &(u8, u8, u8, u8)) -> u32 {
+        let psize = self.real_size(e.0 as usize);
+        match e.3 {
+            0 => 0,
+            255 => psize,
+            v => (v as u32).min(psize),
+        }
     }
     fn fill(i: usize) -> u8 {
         0xA1 + i as u8
@@ -80,7 +93,7 @@ impl G {
                     target: self.spec_index(e.1 as usize),
                     width: e.2,
                     pos,
-                    adjustment: e.3 as u32,
+                    adjustment: self.adj_of(&e),
                 })
                 .collect();
             specs[self.spec_index(i)] = Some(NodeSpec {
@@ -201,7 +214,9 @@ fn unfold(g: &G, bytes: &[u8], order_sizes: &[u32]) -> Result<Unfolded, (String,
                 format!("node {node} expected at {pos}: byte +{} is {:#x}, want {:#x}", link_bytes as usize + i, body[i], fill),
             );
         }
-        for (lpos, (_, to, width, adj)) in links {
+        for (lpos, edge) in links {
+            let (_, to, width, _) = edge;
+            let adj = g.adj_of(&edge);
             let p = (pos + lpos) as usize;
             let raw = &bytes[p..p + width as usize];
             let val = raw.iter().fold(0u64, |a, b| (a << 8) | *b as u64);
@@ -245,7 +260,8 @@ fn plain_order_fits(g: &G) -> bool {
             return g.edges.iter().all(|e| {
                 let (f, t) = (e.0 as usize, e.1 as usize);
                 let max = (1u64 << (8 * e.2 as u32)) - 1;
-                pos[t] >= pos[f] + e.3 as u64 && pos[t] - pos[f] - e.3 as u64 <= max
+                let a = g.adj_of(e) as u64;
+                pos[t] >= pos[f] + a && pos[t] - pos[f] - a <= max
             });
         }
         for i in 1..g.n {
@@ -446,7 +462,7 @@ enum Variants {
     TwoDeviations,
 }
 
-fn variants(base: &[(u8, u8, u8, u8)], widths: &[u8], v: Variants) -> Vec<Vec<(u8, u8, u8, u8)>> {
+fn variants(base: &[(u8, u8, u8, u8)], widths: &[u8], v: Variants, adj_codes: &[u8]) -> Vec<Vec<(u8, u8, u8, u8)>> {
     let mut out = vec![base.to_vec()];
     if v == Variants::Plain {
         return out;
@@ -465,17 +481,21 @@ fn variants(base: &[(u8, u8, u8, u8)], widths: &[u8], v: Variants) -> Vec<Vec<(u
         }
     }
     for k in 0..base.len() {
-        let mut e2 = base.to_vec();
-        e2[k].3 = 2;
-        out.push(e2);
+        for code in adj_codes {
+            let mut e2 = base.to_vec();
+            e2[k].3 = *code;
+            out.push(e2);
+        }
     }
     if v == Variants::TwoDeviations {
         for a in 0..base.len() {
-            let mut adj = base.to_vec();
-            adj[a].3 = 2;
-            for k in 0..base.len() {
-                for w in widths {
-                    out.push(dup(&adj, k, *w));
+            for code in adj_codes {
+                let mut adj = base.to_vec();
+                adj[a].3 = *code;
+                for k in 0..base.len() {
+                    for w in widths {
+                        out.push(dup(&adj, k, *w));
+                    }
                 }
             }
         }
@@ -569,6 +589,8 @@ struct Family<'a> {
     id_orders: &'a [u8],
     /// only shapes with at most this many edges
     max_edges: usize,
+    /// adjustment codes tried on one edge (see `G::edges`)
+    adj_codes: &'a [u8],
 }
 
 fn run_family(run: &Run, f: &Family) {
@@ -588,7 +610,7 @@ fn run_family(run: &Run, f: &Family) {
         .fold(Local::default, |mut l, (s, c)| {
             let (shape, auts) = &shapes[*s];
             let base = edges_of_shape(f.n, shape, f.widths);
-            let vars = variants(&base, f.widths, f.variants);
+            let vars = variants(&base, f.widths, f.variants, f.adj_codes);
             for sizes in f.sizes[c * chunk..].iter().take(chunk) {
                 if f.iso_reduce && !sizes_canonical(sizes, auts) {
                     continue;
@@ -630,6 +652,10 @@ fn body(run: &Run, replay: Option<&Value>) {
             let mut l = Local::default();
             run_graph(run, &g, &mut l);
             println!("replay counters: {:?}", l.c);
+        } else if case["family"] == "gsub" {
+            gsub_path::replay(run, case);
+        } else if case["family"] == "table" {
+            tables_path::replay(run, case);
         } else {
             public_path::replay(run, case);
         }
@@ -639,7 +665,7 @@ fn body(run: &Run, replay: Option<&Value>) {
     let only = std::env::var("C05_ONLY").unwrap_or_default();
     if only == "count6" {
         // development aid: size of the N=6 family
-        let cs = canonical_shapes(6, 2, 7);
+        let cs = canonical_shapes(6, 2, 8);
         let sv = size_vectors(6, &[4], &[0xFFFE, 0x10000], 2);
         let graphs: usize = cs.par_iter().map(|(_, auts)| sv.iter().filter(|s| sizes_canonical(s, auts)).count()).sum();
         println!("n6: {} canonical shapes, {} size vectors, {} graphs, t={:.1}s", cs.len(), sv.len(), graphs, run.elapsed());
@@ -649,9 +675,14 @@ fn body(run: &Run, replay: Option<&Value>) {
     if only == "public" {
         run.cap_hit("C05_ONLY=public: graph family skipped");
         public_path::run_all(run);
+        gsub_path::run_all(run);
+        tables_path::run_all(run);
         return;
     }
     let quick = run.tier == Tier::Quick;
+    // adjustment on one edge: 2 (quick) / 2, 4 and the parent's whole size (thorough)
+    let adj_codes: &[u8] = if quick { &[2] } else { &[2, 4, 255] };
+    run.bound("adjustment_values", json!(if quick { vec!["2"] } else { vec!["2", "4", "parent size"] }));
     let w2: [u8; 2] = [2, 4];
     let w3: [u8; 3] = [2, 3, 4];
     run.bound("size_alphabet", json!({"small": SMALL, "large": LARGE}));
@@ -682,6 +713,7 @@ fn body(run: &Run, replay: Option<&Value>) {
             iso_reduce: false,
             id_orders: &[0, 1],
             max_edges: usize::MAX,
+            adj_codes,
         });
     }
     // --- N = 4 plain: all shapes x all 7^4 sizes
@@ -694,6 +726,7 @@ fn body(run: &Run, replay: Option<&Value>) {
         iso_reduce: false,
         id_orders: if quick { &[0] } else { &[0, 1] },
         max_edges: usize::MAX,
+        adj_codes,
     });
     if quick {
         // N = 4 with one multi-edge or one adjustment, sizes {4, 0xFFFE, 0x10000}
@@ -706,6 +739,7 @@ fn body(run: &Run, replay: Option<&Value>) {
             iso_reduce: false,
             id_orders: &[0],
             max_edges: usize::MAX,
+            adj_codes,
         });
         // N = 5, <= 2 large nodes, isomorphic relabellings removed
         run_family(run, &Family {
@@ -717,6 +751,7 @@ fn body(run: &Run, replay: Option<&Value>) {
             iso_reduce: true,
             id_orders: &[0],
             max_edges: usize::MAX,
+            adj_codes,
         });
         run.bound("graph_families", json!("N<=3: all shapes x 7 sizes x {plain, one multi-edge, one adjustment=2, both} x both id orders; N=4: all 416 shapes x 7^4 sizes plain, and x {4,FFFE,10000}^4 with one multi-edge or one adjustment; N=5: shapes up to relabelling x (<=2 large nodes from {FFFE,10000}, others size 4)"));
     } else {
@@ -729,6 +764,7 @@ fn body(run: &Run, replay: Option<&Value>) {
             iso_reduce: false,
             id_orders: &[0],
             max_edges: usize::MAX,
+            adj_codes,
         });
         run_family(run, &Family {
             name: "n4_one_deviation_full_sizes",
@@ -739,6 +775,7 @@ fn body(run: &Run, replay: Option<&Value>) {
             iso_reduce: false,
             id_orders: &[0],
             max_edges: usize::MAX,
+            adj_codes,
         });
         run_family(run, &Family {
             name: "n5_iso_le3large_small{0,4}",
@@ -749,18 +786,44 @@ fn body(run: &Run, replay: Option<&Value>) {
             iso_reduce: true,
             id_orders: &[0],
             max_edges: usize::MAX,
+            adj_codes,
+        });
+        // N = 5 fully (all 33 280 shapes, no relabelling reduction) over the reduced sizes {4,FFFE,10000}
+        run_family(run, &Family {
+            name: "n5_all_shapes_sizes{4,FFFE,10000}",
+            n: 5,
+            widths: &w2,
+            sizes: size_vectors(5, &[4, 0xFFFE, 0x10000], &[], 0),
+            variants: Variants::Plain,
+            iso_reduce: false,
+            id_orders: &[0],
+            max_edges: usize::MAX,
+            adj_codes,
+        });
+        // N = 5 with 24-bit links: all 722 925 shapes over widths {16,24,32}, <= 2 nodes of 0x10000
+        run_family(run, &Family {
+            name: "n5_w24_all_shapes_le2large_small{4}_large{10000}",
+            n: 5,
+            widths: &w3,
+            sizes: size_vectors(5, &[4], &[0x10000], 2),
+            variants: Variants::Plain,
+            iso_reduce: false,
+            id_orders: &[0],
+            max_edges: usize::MAX,
+            adj_codes,
         });
         run_family(run, &Family {
-            name: "n6_iso_le7edges_le2large_small{4}_large{FFFE,10000}",
+            name: "n6_iso_le8edges_le2large_small{4}_large{FFFE,10000}",
             n: 6,
             widths: &w2,
             sizes: size_vectors(6, &[4], &[0xFFFE, 0x10000], 2),
             variants: Variants::Plain,
             iso_reduce: true,
             id_orders: &[0],
-            max_edges: 7,
+            max_edges: 8,
+            adj_codes,
         });
-        run.bound("graph_families", json!("N<=3: all shapes (widths 16/24/32) x 7 sizes x {plain, one multi-edge, one adjustment=2, both} x both id orders; N=4: all shapes x 7^4 sizes plain (both id orders; also with 24-bit links), and with one multi-edge or one adjustment; N=5: shapes up to relabelling x (<=3 large nodes from the 4 large sizes, others {0,4}); N=6: shapes with <= 7 edges (a spanning tree plus at most two extra links) up to relabelling x (<=2 large nodes from {FFFE,10000}, others size 4)"));
+        run.bound("graph_families", json!("N<=3: all shapes (widths 16/24/32) x 7 sizes x {plain, one multi-edge, one adjustment in {2,4,parent size}, both} x both id orders; N=4: all shapes x 7^4 sizes plain (both id orders; also with 24-bit links), and with one multi-edge or one adjustment; N=5: shapes up to relabelling x (<=3 large nodes from the 4 large sizes, others {0,4}); N=5 again with all 33 280 labelled shapes over sizes {4,FFFE,10000}^5, and with 24-bit links (all 722 925 shapes, <=2 nodes of 0x10000); N=6: shapes with <= 8 edges (a spanning tree plus at most three extra links) up to relabelling x (<=2 large nodes from {FFFE,10000}, others size 4)"));
     }
     run.sample(G { n: 4, sizes: vec![4, 0x10000, 0xFFFE, 2], edges: vec![(0, 1, 4, 0), (0, 2, 2, 0), (1, 3, 2, 0), (2, 3, 2, 0)], id_order: 0 }.to_json());
 
@@ -770,4 +833,6 @@ fn body(run: &Run, replay: Option<&Value>) {
         return;
     }
     public_path::run_all(run);
+    gsub_path::run_all(run);
+    tables_path::run_all(run);
 }
